@@ -79,6 +79,16 @@ for _pid, _title, _what in [
              "DESIGN.md section 5 for this property are not closed yet, therefore the level is not claimed as proof.",
         note=TB + "Modelled: hand-written Gallina models of normalize.py / parse.py / convert.py; integral numeric constants; insertion-ordered sets in the correspondence run.", ref="5/" + _pid)
 
+CLAIMED["C10"] = dict(cat="proof", tech="Coq proof about the request graph of generate_all (well-formedness of the two-level graph for every plan, shape of all its runs, C03/C05/C11 instantiated) + correspondence of plan, graph and generated entries with generate.py + part-by-part jsonschema oracle",
+   text="C10_label: for every plan (any number of parameters, any sample lists) every entry generate_paths yields for the graph generate_all builds takes exactly one option per group in plan order, "
+        "its execution applies the leaves of those options only, and it is labelled valid exactly when all options taken are flagged valid. C10_label_conforms: hence, for every operation, a request is "
+        "labelled valid exactly when every carried value satisfies its schema and everything left out is optional, and a path parameter is never left out -- under the stated hypothesis on the JSON "
+        "pipeline (valid samples satisfy the schema, invalid ones do not: C01 / C02, which are decided by their own checks, not by a theorem). C10_cover: the enumeration ends and every option of "
+        "every group occurs in some request; C10_any_choice; C10_plan_of_generate_all ties the plan to any used cache (C18). Partial: make_path's textual placeholder replacement, the method field and the "
+        "serialisation of the carried value (C19) are not in the theorem; the oracle checks them on every request. Tie: stream O (plan) and stream OG (entries, labels and the option every path applies per group).",
+   note=TB + "Modelled: coq/OpenApi.v (plan), coq/OpenApiGraph.v (graph layout; node ids not modelled). Hypothesis of C10_label_conforms: the JSON pipeline behind SampleCache.add labels its samples correctly "
+        "(checked per request by the jsonschema oracle of this check and by C01 / C02) and never returns two empty lists (SampleCache.add raises otherwise).", ref="5/C10")
+
 CLAIMED["C11"] = dict(cat="proof", tech="Coq termination proof of generate_paths (well-founded measures on the distance annotations) + per-graph certificates for front-end graphs + correspondence",
    text="C11_core_productive / C11_core_acyclic: on every well-formed graph in which every decision has a completion made of valid leaves (cycles, sharing, repeated "
         "children, any size) and on every acyclic graph there is a recursion budget from which on generate_paths() of the model ends normally, with the same entries for "
